@@ -7,6 +7,7 @@ real_norm_conv, nat_conv):
       accepted by the checker with the same sequent; cv.eval(t) reports the same equation;
   (b) canonicity: rearrangements (associativity, commutativity, distribution, duplicated members) of one
       expression get identical normal forms; normalising a normal form changes nothing."""
+import os
 import itertools
 import random
 import sys
@@ -15,8 +16,8 @@ import time
 
 def run(tier='quick', seed=0):
     t0 = time.time()
-    if '/repo' not in sys.path:
-        sys.path.insert(0, '/repo')
+    if os.environ.get('HOLPY_REPO', '/repo') not in sys.path:
+        sys.path.insert(0, os.environ.get('HOLPY_REPO', '/repo'))
     from logic import basic
     basic.load_theory('real')
     from kernel import term as K, theory
@@ -87,12 +88,20 @@ def run(tier='quick', seed=0):
             if t.is_times() and b.is_plus() and r > 0.7:
                 return op(a, b.arg1) + op(a, b.arg)       # distribute
             if b.is_comb() and b.head == op and rng.random() < 0.5:
-                return op(op(a, b.arg1), b.arg)           # re-associate
-            return op(a, b)
+                res = op(op(a, b.arg1), b.arg)           # re-associate
+            else:
+                res = op(a, b)
+            r2 = rng.random()
+            if r2 < 0.3:
+                # neutral elements / vanishing summands at a random side
+                zero, one = K.Number(T, 0), K.Number(T, 1)
+                v0 = rng.choice([zero, K.times(T)(zero, rng.choice([a, b])), K.times(T)(rng.choice([a, b]), zero)])
+                res = rng.choice([lambda: res + v0, lambda: v0 + res, lambda: res * one, lambda: one * res])()
+            return res
         return t
 
     n = 250 if tier == 'quick' else 4000
-    for it in range(n):
+    for it in range(3 * n):
         t = gen_nat(rng.choice([1, 2, 3]))
         pt = check_conv('nat.norm_full', nat.norm_full(), t)
         if pt is None:
@@ -196,6 +205,9 @@ def run(tier='quick', seed=0):
                         w = w.arg.arg
                     lits.add(w)
             collect(t)
+            # the members as the normaliser itself sees them (after De Morgan etc.)
+            collect(pt.prop.rhs)
+            collect(pt2.prop.rhs)
             compl = any(Not(l) in lits for l in lits)
             violations.append({'function': 'conversion proplogic.norm_full',
                                'clause': 'canonical:complementary-members' if compl else 'canonical',
@@ -219,6 +231,25 @@ def run(tier='quick', seed=0):
             for cname, mk in (('top_conv', conv.top_conv), ('bottom_conv', conv.bottom_conv),
                               ('top_sweep_conv', conv.top_sweep_conv)):
                 check_conv('%s(rewr %s)' % (cname, rname), mk(conv.try_conv(conv.rewr_conv(rname))), t)
+    # ---- eta / beta conversion on abstractions whose body applies a function to the bound variable, with the
+    # bound variable possibly occurring in the function part as well (then eta does not apply)
+    g2 = Var('g', K.TFun(NatType, NatType, NatType))
+    f = Var('f', K.TFun(NatType, NatType))
+    for it in range(n):
+        a = gen_nat(1)
+        v = rng.choice([x, y])
+        body = rng.choice([lambda: a + v, lambda: a * v, lambda: f(v), lambda: g2(a, v), lambda: g2(f(v), v),
+                           lambda: g2(v, v), lambda: v + v, lambda: f(a + v)])()
+        t = Lambda(v, body)
+        if rng.random() < 0.3:
+            t = f(t(rng.choice([x, y, Nat(1)]))) if rng.random() < 0.5 else Lambda(rng.choice([x, y, z]), t)
+        for cname, cv in (('eta_conv', conv.eta_conv()), ('try eta_conv', conv.try_conv(conv.eta_conv())),
+                          ('top_conv(try eta)', conv.top_conv(conv.try_conv(conv.eta_conv()))),
+                          ('bottom_conv(try eta)', conv.bottom_conv(conv.try_conv(conv.eta_conv()))),
+                          ('top_sweep_conv(eta)', conv.top_sweep_conv(conv.eta_conv())),
+                          ('top_sweep_conv(beta)', conv.top_sweep_conv(conv.beta_conv())),
+                          ('beta_norm_conv', conv.beta_norm_conv() if hasattr(conv, 'beta_norm_conv') else conv.all_conv())):
+            check_conv(cname, cv, t)
     seen = set()
     uniq = []
     for v in violations:
@@ -228,7 +259,8 @@ def run(tier='quick', seed=0):
             uniq.append(v)
     return {'name': 'c10_conv', 'rule': 'random polynomials over naturals / reals (depth <= 3, three variables, '
             'numerals, + * and real -), propositional formulas (depth <= 3, three atoms), terms with a binder for the '
-            'traversal combinators; rearrangements by commutation, re-association, distribution, duplication; '
+            'traversal combinators, abstractions %v. F v with v possibly in F for eta / beta conversion; rearrangements '
+            'by commutation, re-association, distribution, duplication, neutral and vanishing summands; '
             'non-trivial = distinct (conversion, term) on which the conversion returned', 'evaluations': evals,
             'distinct_nontrivial': len(distinct), 'samples': samples, 'violations': uniq[:12],
             'n_violations': len(uniq), 'all_violations': len(violations), 'secs': round(time.time() - t0, 1)}
